@@ -250,6 +250,10 @@ class C16:
                 d = 'avg_%d' % npath
                 b.emit('mkdir', {'path': d})
                 shape = [rng.randint(2, 8), rng.randint(2, 8)]
+                if rng.random() < 0.3:
+                    # frames large enough for pixel coordinates i * spacing
+                    # that are not exact multiples in floating point
+                    shape = [rng.randint(20, 40), rng.randint(20, 40)]
                 names = []
                 for j in range(k):
                     nm = '%s/f%s.tif' % (d, rng.choice('abcdefgh') + str(j))
@@ -257,7 +261,8 @@ class C16:
                     b.emit('raw_tiff', {'path': nm, 'shape': shape,
                                         'seed': rng.randrange(2 ** 31)},
                            tags={'k': 'raw'})
-                sp = rng.choice([0.1, 0.25])
+                sp = rng.choice([0.1, 0.25, 0.0851, [0.1, 0.3],
+                                 rfloat(rng, 0.03, 0.5, 4)])
                 grp = len(b.events)
                 for nm in names:
                     b.emit('load_image', {'path': nm, 'spacing': sp},
@@ -268,8 +273,10 @@ class C16:
                     # pixel grid, with its own metadata
                     rshape = [rng.randint(2, shape[0]),
                               rng.randint(2, shape[1])]
+                    rorigin = [rng.randint(0, shape[0] - rshape[0]),
+                               rng.randint(0, shape[1] - rshape[1])]
                     refh = b.emit('image', {
-                        'shape': rshape, 'spacing': sp,
+                        'shape': rshape, 'spacing': sp, 'origin': rorigin,
                         'seed': rng.randrange(2 ** 31), 'dtype': 'float64',
                         'optics': dict(draw_optics(rng), noise_sd=None),
                         'name': 'ref', 'channels': None, 'offset': 1.0,
@@ -661,7 +668,10 @@ class C16:
                 rp = rrec['payload']
                 rx = len(rp['coords']['x']['values'])
                 ry = len(rp['coords']['y']['values'])
-                mean_, std_ = mean[:rx, :ry], std[:rx, :ry]
+                o0, o1 = ex.events_by_id[rrec['id']]['args'].get(
+                    'origin') or [0, 0]
+                mean_ = mean[o0:o0 + rx, o1:o1 + ry]
+                std_ = std[o0:o0 + rx, o1:o1 + ry]
                 with np.errstate(all='ignore'):
                     noise_r = float(np.mean(std_ / mean_))
                 # coordinates and metadata come from the reference image
